@@ -42,3 +42,8 @@ def observable(case, impl, model, dbg):
 
 def nontrivial(case, result):
     return "Panic" in result or "None" in result or "B:1" in result
+
+
+def prebuild(root):
+    """translator: regenerate coq/Generated/Glue.v from /repo/src (proved equal to the model in Proofs/GlueTieC04.v)"""
+    return run_translator(root, "rs2v_glue.py", "C04")
